@@ -25,6 +25,9 @@ pub enum ItOp {
     RestCount,
     /// `last()`; ends the program
     RestLast,
+    /// `min()` / `max()` over the (item, priority) pairs that remain; ends the program
+    RestMin,
+    RestMax,
 }
 
 #[derive(Clone, Copy, Debug, PartialEq, Eq, Serialize, Deserialize)]
